@@ -237,16 +237,16 @@ pub proof fn lemma_truncation_complete(n: int, x: int, inv: int)
 
 // ---------------------------------------------------------------- bit decomposition
 /// little-endian value of the first k bits
-pub open spec fn bits_val(b: Seq<int>, k: int) -> int decreases k { if k <= 0 { 0 } else { bits_val(b, k - 1) + b[k - 1] * p2(k - 1) } }
+pub open spec fn dec_val(b: Seq<int>, k: int) -> int decreases k { if k <= 0 { 0 } else { dec_val(b, k - 1) + b[k - 1] * p2(k - 1) } }
 
-pub open spec fn all_boolean(b: Seq<int>, n: int) -> bool { forall|i: int| 0 <= i < n ==> (#[trigger] b[i] == 0 || b[i] == 1) }
+pub open spec fn dec_all_boolean(b: Seq<int>, n: int) -> bool { forall|i: int| 0 <= i < n ==> (#[trigger] b[i] == 0 || b[i] == 1) }
 
 /// what component_decomposition::<N> enforces on canonical values: every bit wire satisfies b*(b-1) == 0 (mod r), the running sum of
 /// b_i 2^i (mod r) is bound to the input by the closing equality
 pub open spec fn decomp_rows_sat(n: int, x: int, b: Seq<int>) -> bool {
     &&& b.len() == n && 0 <= x < R()
     &&& forall|i: int| 0 <= i < n ==> 0 <= #[trigger] b[i] < R() && md(b[i] * (b[i] - 1)) == 0
-    &&& md(bits_val(b, n)) == x
+    &&& md(dec_val(b, n)) == x
 }
 
 proof fn lemma_boolean_wire(v: int)
@@ -258,13 +258,13 @@ proof fn lemma_boolean_wire(v: int)
     if v >= 1 { lemma_md_small(v - 1); }
 }
 
-proof fn lemma_bits_val_bound(b: Seq<int>, k: int)
-    requires 0 <= k <= b.len(), all_boolean(b, k)
-    ensures 0 <= bits_val(b, k) < p2(k)
+proof fn lemma_dec_val_bound(b: Seq<int>, k: int)
+    requires 0 <= k <= b.len(), dec_all_boolean(b, k)
+    ensures 0 <= dec_val(b, k) < p2(k)
     decreases k
 {
     if k > 0 {
-        lemma_bits_val_bound(b, k - 1);
+        lemma_dec_val_bound(b, k - 1);
         assert(b[k - 1] == 0 || b[k - 1] == 1);
         lemma_p2_pos(k - 1);
         assert(b[k - 1] * p2(k - 1) <= p2(k - 1)) by(nonlinear_arith) requires b[k - 1] == 0 || b[k - 1] == 1, p2(k - 1) >= 1;
@@ -274,21 +274,21 @@ proof fn lemma_bits_val_bound(b: Seq<int>, k: int)
 
 /// two boolean sequences with the same value agree bit by bit
 proof fn lemma_bits_unique(a: Seq<int>, b: Seq<int>, k: int)
-    requires 0 <= k <= a.len(), k <= b.len(), all_boolean(a, k), all_boolean(b, k), bits_val(a, k) == bits_val(b, k)
+    requires 0 <= k <= a.len(), k <= b.len(), dec_all_boolean(a, k), dec_all_boolean(b, k), dec_val(a, k) == dec_val(b, k)
     ensures forall|i: int| 0 <= i < k ==> a[i] == b[i]
     decreases k
 {
     if k > 0 {
-        lemma_bits_val_bound(a, k - 1);
-        lemma_bits_val_bound(b, k - 1);
+        lemma_dec_val_bound(a, k - 1);
+        lemma_dec_val_bound(b, k - 1);
         lemma_p2_pos(k - 1);
         assert(a[k - 1] == 0 || a[k - 1] == 1);
         assert(b[k - 1] == 0 || b[k - 1] == 1);
         // the top bit is decided by whether the value reaches 2^(k-1)
         if a[k - 1] != b[k - 1] {
-            assert(a[k - 1] * p2(k - 1) + bits_val(a, k - 1) != b[k - 1] * p2(k - 1) + bits_val(b, k - 1)) by(nonlinear_arith)
+            assert(a[k - 1] * p2(k - 1) + dec_val(a, k - 1) != b[k - 1] * p2(k - 1) + dec_val(b, k - 1)) by(nonlinear_arith)
                 requires a[k - 1] == 0 || a[k - 1] == 1, b[k - 1] == 0 || b[k - 1] == 1, a[k - 1] != b[k - 1],
-                         0 <= bits_val(a, k - 1) < p2(k - 1), 0 <= bits_val(b, k - 1) < p2(k - 1);
+                         0 <= dec_val(a, k - 1) < p2(k - 1), 0 <= dec_val(b, k - 1) < p2(k - 1);
             assert(false);
         }
         lemma_bits_unique(a, b, k - 1);
@@ -296,24 +296,24 @@ proof fn lemma_bits_unique(a: Seq<int>, b: Seq<int>, k: int)
 }
 
 /// the binary digits of x
-pub open spec fn digit(x: int, i: int) -> int { (x / p2(i)) % 2 }
+pub open spec fn dec_digit(x: int, i: int) -> int { (x / p2(i)) % 2 }
 
 proof fn lemma_digits_val(x: int, k: int)
     requires 0 <= x, 0 <= k
-    ensures bits_val(Seq::new(k as nat, |i: int| digit(x, i)), k) == x % p2(k)
+    ensures dec_val(Seq::new(k as nat, |i: int| dec_digit(x, i)), k) == x % p2(k)
     decreases k
 {
-    let s = Seq::new(k as nat, |i: int| digit(x, i));
+    let s = Seq::new(k as nat, |i: int| dec_digit(x, i));
     if k > 0 {
-        let s1 = Seq::new((k - 1) as nat, |i: int| digit(x, i));
+        let s1 = Seq::new((k - 1) as nat, |i: int| dec_digit(x, i));
         lemma_digits_val(x, k - 1);
-        lemma_bits_val_prefix(s, s1, k - 1);
+        lemma_dec_val_prefix(s, s1, k - 1);
         lemma_p2_pos(k - 1);
         // x % 2^k == x % 2^(k-1) + ((x / 2^(k-1)) % 2) * 2^(k-1)
         lemma_mod_breakdown(x, p2(k - 1), 2);
         assert(p2(k) == 2 * p2(k - 1));
         assert(p2(k - 1) * 2 == p2(k));
-        assert(s[k - 1] == digit(x, k - 1));
+        assert(s[k - 1] == dec_digit(x, k - 1));
         assert(p2(k - 1) * ((x / p2(k - 1)) % 2) == ((x / p2(k - 1)) % 2) * p2(k - 1)) by(nonlinear_arith);
     } else {
         assert(p2(0) == 1);
@@ -323,26 +323,26 @@ proof fn lemma_digits_val(x: int, k: int)
 
 proof fn lemma_mod_of_one(x: int) ensures x % 1 == 0 { lemma_fundamental_div_mod(x, 1); lemma_mod_bound(x, 1); }
 
-proof fn lemma_bits_val_prefix(a: Seq<int>, b: Seq<int>, k: int)
+proof fn lemma_dec_val_prefix(a: Seq<int>, b: Seq<int>, k: int)
     requires 0 <= k <= a.len(), k <= b.len(), forall|i: int| 0 <= i < k ==> a[i] == b[i]
-    ensures bits_val(a, k) == bits_val(b, k)
+    ensures dec_val(a, k) == dec_val(b, k)
     decreases k
 {
-    if k > 0 { lemma_bits_val_prefix(a, b, k - 1); }
+    if k > 0 { lemma_dec_val_prefix(a, b, k - 1); }
 }
 
 /// C11 (decomposition, soundness + uniqueness): for 1 <= N <= 254 satisfied rows force x < 2^N and the bit wires to be THE binary digits of x
 pub proof fn lemma_decomposition_sound(n: int, x: int, b: Seq<int>)
     requires 1 <= n <= 254, decomp_rows_sat(n, x, b)
-    ensures x < p2(n), x == bits_val(b, n), forall|i: int| 0 <= i < n ==> b[i] == digit(x, i)
+    ensures x < p2(n), x == dec_val(b, n), forall|i: int| 0 <= i < n ==> b[i] == dec_digit(x, i)
 {
     assert forall|i: int| 0 <= i < n implies (#[trigger] b[i] == 0 || b[i] == 1) by { lemma_boolean_wire(b[i]); }
-    lemma_bits_val_bound(b, n);
+    lemma_dec_val_bound(b, n);
     lemma_p2_mono(n, 254);
     lemma_p2_254_255();
-    lemma_md_small(bits_val(b, n));
+    lemma_md_small(dec_val(b, n));
     // the digits of x form a boolean sequence with the same value: uniqueness
-    let d = Seq::new(n as nat, |i: int| digit(x, i));
+    let d = Seq::new(n as nat, |i: int| dec_digit(x, i));
     lemma_digits_val(x, n);
     lemma_p2_pos(n);
     lemma_small_mod(x as nat, p2(n) as nat);
@@ -353,9 +353,9 @@ pub proof fn lemma_decomposition_sound(n: int, x: int, b: Seq<int>)
 /// C11 (decomposition, completeness): every canonical x < 2^N has the satisfying assignment "its binary digits"
 pub proof fn lemma_decomposition_complete(n: int, x: int)
     requires 1 <= n <= 254, 0 <= x < p2(n)
-    ensures decomp_rows_sat(n, x, Seq::new(n as nat, |i: int| digit(x, i)))
+    ensures decomp_rows_sat(n, x, Seq::new(n as nat, |i: int| dec_digit(x, i)))
 {
-    let d = Seq::new(n as nat, |i: int| digit(x, i));
+    let d = Seq::new(n as nat, |i: int| dec_digit(x, i));
     lemma_digits_val(x, n);
     lemma_p2_pos(n);
     lemma_small_mod(x as nat, p2(n) as nat);
